@@ -204,7 +204,7 @@ func faultScenario(p faultParams) func() {
 			w.Start(c)
 		}
 		if active && !p.pre && !queued {
-			mc.GoNamed("fault", strike)
+			mc.GoLow("fault", strike)
 		}
 		mc.Quiesce()
 		if p.late {
